@@ -109,21 +109,72 @@ package pilosa
 
 // ---- C20: replica sets -------------------------------------------------------------
 
+//@ uf hashOf(h int, key int, n int) int
 //@ contract (Hasher).Hash trusted pure props C20
 //@   requires n >= 1
-//@   ensures 0 <= result && result < n
+//@   ensures result == hashOf(self, key, n) && 0 <= result && result < n
 
 // partitionNodes: min(max(ReplicaN,1), len(nodes)) distinct ring positions
 // starting at the hashed node index.
 //@ contract (*cluster).partitionNodes props C20
 //@   requires c != nil && c.Hasher != nil && len(c.nodes) >= 1 && len(c.nodes) <= 1000000 && c.ReplicaN >= 0
 //@   ensures len(result) == min(max(c.ReplicaN, 1), len(c.nodes))
-//@   ensures exists h :: 0 <= h && h < len(c.nodes) && (forall i :: 0 <= i && i < len(result) ==> result[i] == c.nodes[(h + i) % len(c.nodes)])
+//@   ensures forall i :: 0 <= i && i < len(result) ==> result[i] == c.nodes[(hashOf(c.Hasher, partitionID, len(c.nodes)) + i) % len(c.nodes)]
 //@   ensures fresh(result)
 //@   modifies nothing
 //@   loop 1 invariant 0 <= i && i <= replicaN && len(nodes) == replicaN && fresh(nodes) && nodes.off == 0 && 0 <= nodeIndex && nodeIndex < len(c.nodes) && replicaN == min(max(c.ReplicaN, 1), len(c.nodes))
 //@   loop 1 invariant forall k :: 0 <= k && k < i ==> nodes[k] == c.nodes[(nodeIndex + k) % len(c.nodes)]
 //@   loop 1 decreases replicaN - i
+
+// Ownership tests agree with the owner list: hashing is modelled by uninterpreted
+// pure functions of exactly (index, shard, partitionN) and (hasher, key, n).
+//@ uf partitionOf(index int, shard int, n int) int
+//@ contract (*cluster).partition trusted pure props C20
+//@   requires c != nil && c.partitionN > 0
+//@   ensures result == partitionOf(index, shard, c.partitionN) && 0 <= result && result < c.partitionN
+//@ contract (*jmphasher).Hash trusted pure props C20
+//@   requires n >= 1
+//@   ensures 0 <= result && result < n
+
+//@ spec replicasOf(c *cluster) = min(max(c.ReplicaN, 1), len(c.nodes))
+//@ spec clusterOK(c *cluster) = c != nil && c.Hasher != nil && len(c.nodes) >= 1 && len(c.nodes) <= 1000000 && c.ReplicaN >= 0 && c.partitionN > 0 && (forall i :: 0 <= i && i < len(c.nodes) ==> c.nodes[i] != nil)
+
+//@ contract (*cluster).shardNodes props C20
+//@   requires clusterOK(c)
+//@   ensures len(result) == replicasOf(c) && fresh(result)
+//@   ensures forall i :: 0 <= i && i < len(result) ==> result[i] == c.nodes[(hashOf(c.Hasher, partitionOf(index, shard, c.partitionN), len(c.nodes)) + i) % len(c.nodes)]
+//@   modifies nothing
+
+//@ contract (Nodes).ContainsID props C20
+//@   requires forall i :: 0 <= i && i < len(a) ==> a[i] != nil
+//@   ensures result <==> (exists i :: 0 <= i && i < len(a) && a[i].ID == id)
+//@   modifies nothing
+//@   loop 1 invariant 0 <= $i + 1 && $i + 1 <= len(a) && (forall k :: 0 <= k && k <= $i ==> a[k].ID != id)
+//@   loop 1 decreases len(a) - $i
+
+// A node treats itself as an owner exactly when it is in the owner list:
+// some ring position h+k, k < replicasOf(c), holds a node with that ID.
+//@ contract (*cluster).ownsShard props C20
+//@   requires clusterOK(c)
+//@   ensures result <==> (exists k :: 0 <= k && k < replicasOf(c) && c.nodes[(hashOf(c.Hasher, partitionOf(index, shard, c.partitionN), len(c.nodes)) + k) % len(c.nodes)].ID == nodeID)
+
+// The ring is kept ordered by node ID, so it is a function of the member set.
+//@ spec nodesSorted(a []*Node) = (forall i :: 0 <= i && i < len(a) ==> a[i] != nil) && (forall i, j :: 0 <= i && i < j && j < len(a) ==> strlt(a[i].ID, a[j].ID))
+//@ contract (*cluster).nodePositionByID props C20
+//@   requires c != nil && (forall i :: 0 <= i && i < len(c.nodes) ==> c.nodes[i] != nil)
+//@   ensures result == -1 || (0 <= result && result < len(c.nodes) && c.nodes[result].ID == nodeID)
+//@   ensures result == -1 ==> (forall i :: 0 <= i && i < len(c.nodes) ==> c.nodes[i].ID != nodeID)
+//@   ensures result >= 0 ==> (forall i :: 0 <= i && i < result ==> c.nodes[i].ID != nodeID)
+//@   modifies nothing
+//@   loop 1 invariant 0 <= $i + 1 && $i + 1 <= len(c.nodes) && (forall k :: 0 <= k && k <= $i ==> c.nodes[k].ID != nodeID)
+//@   loop 1 decreases len(c.nodes) - $i
+//@ contract (*cluster).removeNodeBasicSorted props C20
+//@   requires c != nil && nodesSorted(c.nodes) && len(c.nodes) <= 1000000
+//@   ensures nodesSorted(c.nodes)
+//@   ensures result ==> len(c.nodes) == old(len(c.nodes)) - 1
+//@   ensures !result ==> len(c.nodes) == old(len(c.nodes))
+//@   ensures forall i :: 0 <= i && i < len(c.nodes) ==> c.nodes[i].ID != nodeID
+//@   ensures forall j :: 0 <= j && j < old(len(c.nodes)) && old(c.nodes[j]).ID != nodeID ==> (exists i :: 0 <= i && i < len(c.nodes) && c.nodes[i] == old(c.nodes[j]))
 
 // ---- C15 / C03: row segments ---------------------------------------------------------
 //@ byref rowSegment AttrBlock
